@@ -41,6 +41,15 @@ var solvers = []solverSpec{
 	}},
 }
 
+var z3NoMBQI = solverSpec{"z3-new-ematch", func(f string, t int) []string {
+	return []string{"z3-new", fmt.Sprintf("-T:%d", t), "smt.mbqi=false", f}
+}}
+
+// z3-new with its automatic configuration, for the stage-2 race. Stage 1 runs z3-new with auto_config=false:
+// on these VCs (quantified heap axioms plus the Real field of the interface datatype) the automatic
+// configuration diverges on goals that plain E-matching decides in milliseconds.
+var z3NewAuto = solverSpec{"z3-new-auto", func(f string, t int) []string { return []string{"z3-new", fmt.Sprintf("-T:%d", t), f} }}
+
 func runSolver(s solverSpec, file string, timeoutS int) (status string, out string, secs float64) {
 	return runSolverCtx(context.Background(), s, file, timeoutS)
 }
